@@ -128,6 +128,47 @@ def ensure_fuzz():
         lock.close()
 
 
+def ensure_fuzz_replay():
+    """gcc build (no sanitizer) of the fuzz targets with a stand-alone main, for valgrind memcheck replays (C14 thorough)."""
+    import glob
+    from concurrent.futures import ThreadPoolExecutor
+    repo = repo_path()
+    bdir = build_dir("fuzzreplay")
+    os.makedirs(bdir, exist_ok=True)
+    exe = os.path.join(bdir, "fuzz_replay")
+    srcs = sorted(glob.glob(os.path.join(repo, "src/qtlogger/formatters/*.cpp")) + glob.glob(os.path.join(repo, "src/qtlogger/filters/*.cpp")))
+    srcs += [os.path.join(VERIF, "drivers", "fuzz_targets.cpp"), os.path.join(VERIF, "drivers", "fuzz_replay_main.cpp")]
+    deps = srcs + glob.glob(os.path.join(repo, "src/qtlogger/**/*.h"), recursive=True)
+    if os.path.exists(exe) and os.path.getmtime(exe) >= max(os.path.getmtime(f) for f in deps):
+        return exe
+    # only FuzzedDataProvider.h from clang's resource directory (gcc must not see clang's own stddef.h etc.)
+    import glob as _g
+    import shutil as _sh
+    fdp = _g.glob("/usr/lib/llvm-14/lib/clang/*/include/fuzzer/FuzzedDataProvider.h")
+    if not fdp:
+        raise BuildError("FuzzedDataProvider.h not found")
+    os.makedirs(os.path.join(bdir, "inc", "fuzzer"), exist_ok=True)
+    _sh.copy(fdp[0], os.path.join(bdir, "inc", "fuzzer", "FuzzedDataProvider.h"))
+    inc = ["-I" + os.path.join(repo, "src"), "-I" + os.path.join(repo, "src", "qtlogger"), "-I" + os.path.join(bdir, "inc")]
+    qt = subprocess.run(["pkg-config", "--cflags", "Qt5Core"], stdout=subprocess.PIPE, text=True).stdout.split()
+    qtl = subprocess.run(["pkg-config", "--libs", "Qt5Core"], stdout=subprocess.PIPE, text=True).stdout.split()
+
+    def cc(src):
+        obj = os.path.join(bdir, os.path.basename(src) + ".o")
+        r = subprocess.run(["g++", "-std=gnu++17", "-O1", "-g", "-fPIC", "-DQTLOGGER_STATIC", "-DQT_CORE_LIB", GUARD] + inc + qt + ["-c", src, "-o", obj],
+                           stdout=subprocess.PIPE, stderr=subprocess.STDOUT, text=True)
+        return obj, r.returncode, r.stdout
+    with ThreadPoolExecutor(max_workers=8) as ex:
+        res = list(ex.map(cc, srcs))
+    for obj, rc, out in res:
+        if rc != 0:
+            raise BuildError("g++ failed for %s:\n%s" % (obj, out[-3000:]))
+    r = subprocess.run(["g++"] + [o for o, _, _ in res] + ["-o", exe] + qtl, stdout=subprocess.PIPE, stderr=subprocess.STDOUT, text=True)
+    if r.returncode != 0:
+        raise BuildError("fuzz_replay link failed:\n%s" % r.stdout[-3000:])
+    return exe
+
+
 if __name__ == "__main__":
     for fl in sys.argv[1:] or ["san", "tsan", "plain"]:
         print(fl, ensure_fuzz() if fl == "fuzz" else ensure(fl, quiet=False))
